@@ -53,6 +53,10 @@ CLAIMED = {
          "Code versions simulated as registry sets built with hook H1 (never knew the type / original name / two alternative renames / chained renames of length 2 and 3 registered in every permutation, decoders registered afterwards). Exhaustive part: sender x optional intermediary x receiver x form x permutation on two fixed carriers; seeded part: 1..3 hops with the renamed node grafted into generated carrier trees and a second differently-versioned sender. Oracles: wire family name is the original key, GetTypeKey of the newest name is order-independent, decode yields the receiver's current type (opaque at unknowing ones), Is against a locally built equivalent, copies from different versions Is-equal both ways at every receiver, duplicate migration target rejected.",
          "5/C17", "trusted: hook H1; the version table; Go types of all names are linked into one binary (DESIGN.md 8.3)",
          "deterministic simulation: multi-version cluster simulation (per-process registry sets), exhaustive configuration sweep + seeded carriers"),
+ "C18": ("exploration",
+         "Three layers seeded from the same tape. (1) Cooperative deterministic schedule: 16..32 real goroutines run the read-only observers on one shared value (local or decoded), exactly one at a time, switching only at yield points inserted into every statement of the library by a go/ast overlay generated from the working tree; a random-walk or PCT-style scheduler draws every switch from the tape (replayable, shrinkable); oracle: each result equals the solo result computed on an identical twin. (2) Immutability monitor: a reflective deep fingerprint of everything reachable from the shared value and of the registries is compared after every scheduler step. (3) Race detector: free-running goroutines released from one barrier in a -race build; a report becomes a VIOLATION whose replay file regenerates the same tree and op assignment. Sampling, not proof.",
+         "5/C18", "trusted: the instrumenter (yields only inside cockroachdb/errors; a step inside fmt/redact/protobuf/sentry is atomic for layer 1), the exclusion list of dependency-owned atomic size caches in the fingerprint (sched.Excluded), the Go race detector; layer 3's interleaving is not controlled by the simulator",
+         "deterministic simulation: cooperative seeded scheduler over compiled-in yield points + immutability monitor, complemented by a race-detector run"),
 }
 
 NOT_APPLICABLE = {
